@@ -41,7 +41,9 @@ orc_init (void)
 {
   static int inited = FALSE;
 
-  if (!inited) {
+  /* no unlocked first check: reading the plain flag outside the mutex
+   * would race with the write below */
+  {
     orc_global_mutex_lock ();
     if (!inited) {
       ORC_ASSERT(sizeof(OrcExecutor) == sizeof(OrcExecutorAlt));
